@@ -45,7 +45,7 @@ func dataAnchorOK(r *api.DataAnchor) bool {
 	return zz.And(exists16(tDataID, r.Id), r.Timestamp != nil)
 }
 func dataAttestorOK(r *api.DataAttestor) bool {
-	return zz.And(exists16(tDataAnchor, r.Id), r.Timestamp != nil)
+	return zz.And(zz.And(exists16(tDataAnchor, r.Id), r.Timestamp != nil), len(r.Attestor) > 0)
 }
 func dataResolverOK(r *api.DataResolver) bool {
 	return zz.And(exists16(tDataAnchor, r.Id), exists16(tResolver, r.ResolverId))
